@@ -190,7 +190,10 @@ def run(rep):
         f = gen_commit(rng, True) if k == "commit" else gen_tag(rng) if k == "tag" else gen_tree(rng) if k == "tree" else {"data": hx(b"one")}
         ops = []
         for _ in range(rng.randrange(2, 12)):
-            if rng.random() < 0.5:
+            if k != "blob" and rng.random() < 0.12:
+                ops.append(["reparse", gen_commit(rng, True) if k == "commit" else gen_tag(rng) if k == "tag" else gen_tree(rng)])
+                f = ops[-1][1]
+            elif rng.random() < 0.5:
                 if k == "commit":
                     name = rng.choice(["author", "committer", "message", "parents", "tree", "commit_time", "author_tz", "encoding", "gpgsig"])
                     val = {"author": ident(rng), "committer": ident(rng), "message": rng.choice([hx(b"m2\n"), hx(b"")]),
@@ -212,10 +215,25 @@ def run(rep):
             else:
                 ops.append([rng.choice(["id", "raw", "id256", "copy", "id"])])
         reqs.append({"fn": "edits", "kind": k, "fields": f, "ops": ops})
-    mlines = ["cache " + "".join({"set": "s", "id": "i", "raw": "r", "id256": "o", "copy": "i"}[o[0]] for o in q["ops"]) for q in reqs]
+    # directed: an object holding optional headers is given the contents of one without them (and the reverse),
+    # then one field is edited: nothing of the previous contents may survive
+    for _ in range(6 if not thorough else 60):
+        full_t, bare_t = gen_tag(rng), gen_tag(rng)
+        tz = gen_tz(rng)
+        full_t.update(tagger=ident(rng), tag_time=gen_time(rng), tag_tz=tz[0], tag_neg=tz[1], signature=hx(PGP + b"\n"))
+        bare_t.update(tagger=None, signature="NONE")
+        for k2 in ("tag_time", "tag_tz", "tag_neg"):
+            bare_t.pop(k2, None)
+        full_c, bare_c = gen_commit(rng, True), gen_commit(rng, True)
+        full_c.update(encoding=hx(b"latin1"), gpgsig=hx(PGP))
+        for k2 in ("encoding", "gpgsig", "mergetags", "extra"):
+            bare_c.pop(k2, None)
+        for kind, x, y in (("tag", full_t, bare_t), ("tag", bare_t, full_t), ("commit", full_c, bare_c), ("commit", bare_c, full_c)):
+            reqs.append({"fn": "edits", "kind": kind, "fields": x, "ops": [["id"], ["reparse", y], ["raw"], ["set", "message", hx(b"edited\n")], ["raw"], ["id"]]})
+    mlines = ["cache " + "".join({"set": "s", "id": "i", "raw": "r", "id256": "o", "copy": "i", "reparse": "w"}[o[0]] for o in q["ops"]) for q in reqs]
     mres = model.run(mlines)
     for q, r, m in zip(reqs, impl.run(reqs), mres):
-        rep.case("edit-sequence-" + q["kind"], key=repr(q["ops"]), nontrivial=len(q["ops"]) > 2, sample={"kind": q["kind"], "ops": [o[:2] for o in q["ops"]]})
+        rep.case("edit-sequence-" + q["kind"], key=repr(q["ops"]), nontrivial=len(q["ops"]) > 2, sample={"kind": q["kind"], "ops": [o[:2] if o[0] != "reparse" else ["reparse"] for o in q["ops"]]})
         v = r.get("v") if isinstance(r, dict) else None
         if v is None:
             rep.fail("edits-worker", "edit sequence worker failed: %r" % (r,), {"kind": q["kind"], "ops": q["ops"]})
